@@ -77,6 +77,17 @@ def make_histories(rng, q):
     return parts
 
 
+def relabel_crashes(failures, histories):
+    """A crash / sanitizer report while loading a MUS score that contains a system event is a consequence of the converter
+    losing byte synchronisation there (garbage delays): its own defect class, so that a matcher can target it."""
+    for f in failures:
+        if f.prop == "CRASH" and 0 <= f.history < len(histories):
+            h = histories[f.history]
+            if any(c.get("e") == "Mus" and any(e.get("k") == "sys" for e in c.get("ev", [])) for c in h):
+                f.what = "mus-system-event-crash"
+    return failures
+
+
 def sample(hs, n=2):
     out = []
     for h in hs[:n]:
@@ -97,7 +108,7 @@ def check_c17(pid, tier, replay):
 
     def rerun(hist):
         f, _, _ = vtrace.run_histories(pid + "r", HARNESS, TRACE, [hist], nchunks=1)
-        return f
+        return relabel_crashes(f, [hist])
 
     if replay:
         return checks.replay_one(pid, replay, rerun)
@@ -110,6 +121,7 @@ def check_c17(pid, tier, replay):
     if stats["infra"]:
         print("INFRA:", stats["infra"][0][:2000])
         return 3
+    relabel_crashes(failures, histories)
     enc = [f for f in failures if f.what == "harness-encoder"]
     if enc:
         print("INFRA: the harness encoder disagrees with the byte layout of the reference: %r" % enc[0])
